@@ -295,8 +295,10 @@ impl Mon {
                     s.ended = true;
                     let fin = self.final_contents.as_ref().unwrap();
                     if vals(&s.replica) != vals(fin) {
+                        // published diffs that never reach a subscriber which did not fall behind: C05 as well
+                        let tag = if n_msgs - s.pos_msg <= cap { "C05|C08" } else { "C08" };
                         return div(
-                            "C08",
+                            tag,
                             format!(
                                 "subscriber s{i} ended with replica {:?} != final contents {:?} ({} message(s) undelivered)",
                                 vals(&s.replica),
